@@ -21,6 +21,11 @@ func TestEngine(t *testing.T) {
 	_ = start
 	InitPorts(run_.Shard)
 	hub.VerifSetDialBackoff([][2]int{{0, 1}, {1, 2}, {2, 3}})
+	if run_.Prop == "C10" {
+		// every delayed dial waits at least one second: distinguishes a dial that was in flight when
+		// unregister/shutdown returned (milliseconds) from a delayed dial that ignored it (DESIGN.md C10)
+		hub.VerifSetDialBackoff([][2]int{{1, 2}, {2, 3}, {3, 4}})
+	}
 	par := 4
 	if v, err := strconv.Atoi(os.Getenv("VERIF_PAR")); err == nil && v > 0 {
 		par = v
@@ -62,6 +67,67 @@ func TestEngine(t *testing.T) {
 				vc.Scn(sc.ID)
 				res := runPair(sc)
 				evalPair(col, sc, res)
+			})
+		}
+	}
+	if run_.Prop == "C10" {
+		n := run_.N(40, 1200)
+		for i := 0; i < n; i++ {
+			if !run_.Mine(i) {
+				continue
+			}
+			i := i
+			spawn(func() {
+				r := vc.NewRand(run_.Seed, engine+"-c10", uint64(i))
+				sc := genC10(r)
+				sc.ID = fmt.Sprintf("%s/%d/c10", engine, i)
+				vc.Scn(sc.ID)
+				evalC10(col, sc, runC10(sc))
+			})
+		}
+	}
+	if run_.Prop == "C20" {
+		n := run_.N(24, 400)
+		for i := 0; i < n; i++ {
+			if !run_.Mine(i) {
+				continue
+			}
+			i := i
+			spawn(func() {
+				vc.Scn(fmt.Sprintf("%s/%d/stress", engine, i))
+				runStress(run_.Seed, i, col)
+			})
+		}
+	}
+	if want("C15") {
+		n := run_.N(24, 600)
+		for i := 0; i < n; i++ {
+			if !run_.Mine(i) {
+				continue
+			}
+			i := i
+			spawn(func() {
+				r := vc.NewRand(run_.Seed, engine+"-c15", uint64(i))
+				sc := genC15(r)
+				sc.ID = fmt.Sprintf("%s/%d/c15", engine, i)
+				vc.Scn(sc.ID)
+				evalC15(col, sc)
+			})
+		}
+	}
+	if want("C02") {
+		n := run_.N(160, 3000)
+		for i := 0; i < n; i++ {
+			if !run_.Mine(i) {
+				continue
+			}
+			i := i
+			spawn(func() {
+				r := vc.NewRand(run_.Seed, engine+"-c02", uint64(i))
+				c := genC02(r, i)
+				c.ID = fmt.Sprintf("%s/%d/c02/%s/%s", engine, i, c.Dir, c.CertKind)
+				vc.Scn(c.ID)
+				runC02(c, col)
 			})
 		}
 	}
